@@ -98,6 +98,44 @@ func runC06(cx *CheckCtx) {
 			}
 			cx.decide(ok, "epoch-guard", "netmap.NewEpoch/"+siteConstruct(a, s), "stored epoch < epochNum established", "an effect of NewEpoch is reachable without epochNum > current epoch: a non-increasing tick would change state", s.Where(w))
 		}
+		// converse ("succeeds iff"): the contract's own code faults only without the Alphabet witness
+		// or with epochNum ≤ the stored epoch (a subscriber's fault is the third documented reason and
+		// is raised outside this code)
+		{
+			var ltLits []int32
+			for id := int32(1); id < int32(len(a.lt.lits)); id++ {
+				l := a.lt.lits[id]
+				if l.Kind == KLt && l.B == epoch && l.A.Op == "read" {
+					if k, _ := l.A.Args[0].BytesConst(); k == "snapshotEpoch" {
+						ltLits = append(ltLits, -id)
+					}
+				}
+			}
+			wl := witnessLits(a, []string{"A23"})
+			var reasons []int32
+			reasons = append(reasons, ltLits...)
+			for _, l := range wl {
+				reasons = append(reasons, -l)
+			}
+			okAcc, nAcc, whereAcc := len(ltLits) > 0, 0, w.pos(m.Fn.Pos())
+			for k := range a.in {
+				if k.idx != 0 {
+					continue
+				}
+				if _, isPanic := k.b.Instrs[len(k.b.Instrs)-1].(*ssa.Panic); !isPanic {
+					continue
+				}
+				for _, p := range k.b.Preds {
+					if st2 := a.edgeState(k.ctx, p, k.b); st2 != nil {
+						nAcc++
+						if !a.holdsAt(st2, reasons...) {
+							okAcc, whereAcc = false, blockPos(w, p)
+						}
+					}
+				}
+			}
+			cx.decide(okAcc && nAcc > 0, "epoch-guard", "netmap.NewEpoch/accepts", "faults only without the Alphabet witness or with epochNum ≤ the stored epoch", "an Alphabet-witnessed tick with a larger epoch number can be refused (at "+whereAcc+")", whereAcc)
+		}
 		var ePut, bPut, pPut, snapPut, notif, fan *Site
 		for _, s := range effs {
 			fam := ""
